@@ -7,6 +7,7 @@ import (
 	"encoding/json"
 	"flag"
 	"fmt"
+	"go/ast"
 	"go/parser"
 	"go/token"
 	"os"
@@ -20,6 +21,73 @@ var (
 	repo     = "/repo" // VERIF_REPO overrides (evaluation of a seeded change in a scratch worktree)
 	shimRoot = "/verif/shim"
 )
+
+// rewriteGoStmts replaces every `go f(a, b)` by
+//
+//	func() { _vgo0, _vgo1 := a, b; verifshimvsched.Go(func() { f(_vgo0, _vgo1) }) }()
+//
+// (arguments are evaluated at the go statement, as the language says; literal arguments stay in place) and adds the
+// import. ok is false when the file has no go statement or does not parse.
+func rewriteGoStmts(src string) (string, bool) {
+	out := src
+	n := 0
+	var pkgEnd int
+	for {
+		fset := token.NewFileSet()
+		f, err := parser.ParseFile(fset, "x.go", out, parser.ParseComments)
+		if err != nil {
+			return "", false
+		}
+		off := func(p token.Pos) int { return fset.Position(p).Offset }
+		pkgEnd = off(f.Name.End())
+		// one statement per parse (the innermost last one), so that offsets are always those of the current text
+		var g *ast.GoStmt
+		ast.Inspect(f, func(nd ast.Node) bool {
+			if x, ok := nd.(*ast.GoStmt); ok {
+				g = x
+			}
+			return true
+		})
+		if g == nil {
+			break
+		}
+		n++
+		call := g.Call
+		fun := out[off(call.Fun.Pos()):off(call.Fun.End())]
+		var temps, vals, args []string
+		for k, a := range call.Args {
+			text := out[off(a.Pos()):off(a.End())]
+			if _, lit := a.(*ast.BasicLit); lit {
+				args = append(args, text)
+				continue
+			}
+			if id, isID := a.(*ast.Ident); isID && (id.Name == "nil" || id.Name == "true" || id.Name == "false") {
+				args = append(args, text)
+				continue
+			}
+			t := fmt.Sprintf("_vgo%d", k)
+			temps = append(temps, t)
+			vals = append(vals, text)
+			args = append(args, t)
+		}
+		ell := ""
+		if call.Ellipsis.IsValid() {
+			ell = "..."
+		}
+		pre := ""
+		if len(temps) > 0 {
+			pre = strings.Join(temps, ", ") + " := " + strings.Join(vals, ", ") + "; "
+		}
+		repl := "func() { " + pre + "verifshimvsched.Go(func() { " + fun + "(" + strings.Join(args, ", ") + ell + ") }) }()"
+		out = out[:off(g.Pos())] + repl + out[off(g.End()):]
+	}
+	if n == 0 {
+		return "", false
+	}
+	// import, right after the package clause (same line: line numbers are preserved)
+	out = out[:pkgEnd] + "; import verifshimvsched \"" + modPath + "/verifshim/vsched\"" + out[pkgEnd:]
+	return out, true
+}
 
 func main() {
 	out := flag.String("o", "/verif/.build/overlay.json", "overlay file")
@@ -77,6 +145,11 @@ func main() {
 			}
 			s, e := fset.Position(im.Pos()).Offset, fset.Position(im.End()).Offset
 			ns = ns[:s] + alias + ` "` + modPath + `/verifshim/` + shim + `"` + ns[e:]
+			changed = true
+		}
+		// go statements become calls of vsched.Go (the new goroutine is then a thread of the controlled scheduler)
+		if rewritten, ok := rewriteGoStmts(ns); ok {
+			ns = rewritten
 			changed = true
 		}
 		if changed {
